@@ -93,8 +93,8 @@ func (lp *lifePkg) siteNotClosed(p *core.Prog, fn *ssa.Function, site ssa.Instru
 	outEdge := func(b *ssa.BasicBlock, succIdx int) bool {
 		f := in[b]
 		for _, ins := range b.Instrs {
-			if ins != site && lp.mayClose(ins) {
-				f = false
+			if lp.mayClose(ins) {
+				f = false // also the site itself: on the way around a loop it has run
 			}
 			// a store of false/true to obj.closed
 			if st, ok := ins.(*ssa.Store); ok {
